@@ -77,6 +77,10 @@ func (qpc *QuotaPreemptionContext) tryPreemption() {
 		}
 		return
 	}
+	// nothing to preempt: usage minus what is already being preempted fits in the quota again
+	if resources.IsZero(qpc.preemptableResource) {
+		return
+	}
 	leafQueues := make(map[*Queue]*QuotaPreemptionContext)
 	getChildQueuesPreemptableResource(qpc.queue, qpc.preemptableResource, leafQueues)
 
